@@ -35,7 +35,7 @@ var also = map[string][]string{
 	"C06": {"C03"},
 	"C11": {"C09", "C07"},
 	"C13": {"C01", "C03", "C07"},
-	"C19": {"C07", "C01"},
+	"C19": {"C07", "C01", "C06"},
 }
 
 var enums = map[string]func(tier string, deadline time.Time) *run.EnumResult{
